@@ -30,15 +30,21 @@ func c16() []*Ob {
 				if fn == nil {
 					return
 				}
+				// the error a shard answered with: the error-typed field of the value received from the response channel
+				fromChan := func(v ssa.Value) bool {
+					return DerivesFrom(v, func(x ssa.Value) bool {
+						u, ok := x.(*ssa.UnOp)
+						return ok && u.Op == token.ARROW
+					})
+				}
 				isErrField := func(v ssa.Value) bool {
-					f, ok := v.(*ssa.Field)
-					if ok {
-						_, name, _, ok2 := FieldOf(f)
-						return ok2 && name == "Err"
+					if f, ok := v.(*ssa.Field); ok {
+						return IsErrorType(f.Type()) && fromChan(f.X)
 					}
-					if u, ok := v.(*ssa.UnOp); ok {
-						_, name, _, ok2 := FieldOf(u.X)
-						return ok2 && name == "Err"
+					if u, ok := v.(*ssa.UnOp); ok && u.Op == token.MUL {
+						if fa, ok := u.X.(*ssa.FieldAddr); ok {
+							return IsErrorType(u.Type()) && fromChan(fa.X)
+						}
 					}
 					return false
 				}
@@ -213,7 +219,7 @@ func c16() []*Ob {
 					return
 				}
 				uni := c.P.EnumConsts("pkg/storeapi", "SearchErrorCode")
-				cov := SwitchCoverage(fn, func(v ssa.Value) bool {
+				cov := c.P.SwitchCoverageLifted(fn, func(v ssa.Value) bool {
 					u, ok := stripConvs(v).(*ssa.UnOp)
 					return ok && IsFieldAddr(u.X, "pkg/storeapi.SearchResponse", "Code")
 				})
